@@ -193,7 +193,10 @@ impl SearchFilters {
         let mut bytes = Vec::new();
 
         if !filters.is_empty() {
+            // `\nand\<count>` / `\nor\<count>`, applying to the following <count> filters
+            bytes.extend([b'\\']);
             bytes.extend(name.as_bytes());
+            bytes.extend([b'\\']);
             bytes.extend(filters.len().to_string().as_bytes());
             for filter in filters.values() {
                 bytes.extend(filter.to_bytes());
